@@ -250,10 +250,24 @@ def r4_process_order(cx, mods):
         # ignore check raises SkipComponent
         ign_ifs = [s for s in walk_body(fn.body) if isinstance(s, ast.If) and "IGNORE" in U(s.test)]
         for s in ign_ifs[:1]:
-            t = U(s.test)
-            okf = t in ("any((i in %s for i in IGNORE.get(self.component, [])))" % b, "any((i in %s for i in dr.IGNORE.get(self.component, [])))" % b)
+            okf = _ignore_test(s.test, b)
             cx.require(okf and isinstance(s.body[-1], ast.Raise) and "SkipComponent" in U(s.body[-1]), s,
                        "ignore check: any ignored context present in the broker -> raise SkipComponent (the component is not executed at all)")
+
+
+def _ignore_test(test, b):
+    """``any(i in broker for i in <ignored contexts of self.component>)`` possibly conjoined with a truthiness test of the same set."""
+    conj = test.values if isinstance(test, ast.BoolOp) and isinstance(test.op, ast.And) else [test]
+    anys = [c for c in conj if isinstance(c, ast.Call) and call_name(c) == "any" and c.args and isinstance(c.args[0], (ast.GeneratorExp, ast.ListComp))]
+    if len(anys) != 1:
+        return False
+    g = anys[0].args[0]
+    gen = g.generators[0]
+    src = U(gen.iter)
+    ok = len(g.generators) == 1 and not gen.ifs and U(g.elt) == "%s in %s" % (U(gen.target), b) and "IGNORE" in src and "self.component" in src
+    # the other conjuncts may only test that there is anything to ignore
+    rest = [c for c in conj if c is not anys[0]]
+    return ok and all("IGNORE" in U(c) and "self.component" in U(c) and not any(isinstance(x, ast.Compare) for x in ast.walk(c)) for c in rest)
 
 
 def _ignore_guards(g):
